@@ -104,7 +104,12 @@ def rand_value(rng, sh, cplx, bits=3, scale=2.0):
     return dy(rng, (2 * n if cplx else n,), bits, scale).tolist()
 
 
+SINGLE = False  # set by harness/steps_f32_worker.py (process without jax_enable_x64): declared dtypes float32 / complex64
+
+
 def dtype_of(cplx):
+    if SINGLE:
+        return np.complex64 if cplx else np.float32
     return np.complex128 if cplx else np.float64
 
 
@@ -367,7 +372,7 @@ def nl_function(rec):
     c = snp.array(np.asarray(rec["c"], dtype=np.float64))
     return Function(((A.shape[1],), (B.shape[1],)), output_shape=(A.shape[0],),
                     eval_fn=lambda x, z: A @ x + B @ z + q * (P @ x) * (Q @ z) - c,
-                    input_dtypes=np.float64, output_dtype=np.float64)
+                    input_dtypes=dtype_of(False), output_dtype=dtype_of(False))
 
 
 # --------------------------------------------------------------------------------------------
@@ -1281,6 +1286,29 @@ def gen_exact(rng, alg):
         return {"alg": "pgm", "cplx": False, "xshape": xs, "f": f, "g": fn(), "L0": p2([3, 4, 5]), "x0": dy3((n,)),
                 "pol": {"kind": "base", "real": True}, "exact": True}
     raise Infra("exact stream: " + alg)
+
+
+def raised_in_library(e):
+    """does the traceback of exception `e` pass through the library under test (as opposed to the harness itself)?"""
+    import traceback
+
+    repo = str(common.REPO)
+    return any(fr.filename.startswith(repo) for fr in traceback.extract_tb(e.__traceback__))
+
+
+def run_f32_worker(cases):
+    """run harness/steps_f32_worker.py (a process WITHOUT jax_enable_x64) on [{"recipe", "pre"}]; returns its result records"""
+    import json
+    import os
+    import subprocess
+    import sys
+
+    env = {k: v for k, v in os.environ.items() if k != "JAX_ENABLE_X64"}
+    p = subprocess.run([sys.executable, str(common.VERIF / "harness" / "steps_f32_worker.py")],
+                       input=json.dumps({"repo": str(common.REPO), "cases": cases}), capture_output=True, text=True, env=env)
+    if p.returncode != 0:
+        raise Infra("default-precision worker failed: " + p.stderr[-800:])
+    return json.loads(p.stdout)["results"]
 
 
 EXACT_ALGS = ["admm", "ladmm", "padmm", "pdhg", "pgm"]
